@@ -10,8 +10,8 @@ What is proved here, for EVERY string (every list of byte values, valid UTF-8 or
 which `html/template` applies in zoekt's templates writes into the page is safe at the place it is written to
 (`Chain.safe`, Spec.lean).  Which chain is applied to which `{{action}}` is `html/template`'s context inference; it is
 read back from the real, escaped templates by the translator (`Gen.c36Actions`) and every entry is checked against the
-modelled chains below.  Not proved: the scheme clause of `urlAttrSafe` (see `url_attr_markup_safe_partial`), and
-"rendering never fails" (a property of the handlers, validated by the harness on real pages).
+modelled chains below.  Not proved: "rendering never fails" (a property of the handlers, validated by the harness on
+real pages).
 -/
 import ZoektModel.C36.Lemmas
 import ZoektModel.Generated.C36Web
@@ -105,14 +105,6 @@ theorem ctx_safe_urlTail (s : Str) :
     attrSafe (htmlEscape (urlNormalize s)) = true ∧ noControlOrSpace (htmlEscape (urlNormalize s)) = true :=
   ⟨ctx_safe_attr _, htmlEscape_noControl _ (urlNormalize_noControl s)⟩
 
-/-- **whole URL in `href="{{.URL}}"`, markup part**: attribute-safe, no control character or space.
-    (Partial: the clause `schemeOk` of `urlAttrSafe` — no scheme other than http/https/mailto reaches the browser — is
-    evaluated on the implementation's output for every case and by the Go oracle on every link of every page, and is
-    covered here only up to `url_filter_output_is_safe`.) -/
-theorem url_attr_markup_safe_partial (s : Str) :
-    attrSafe (urlAttrChain s) = true ∧ noControlOrSpace (urlAttrChain s) = true :=
-  ctx_safe_urlTail (urlFilter s)
-
 /-- `urlFilter` lets through only what `isSafeURL` accepts: its output is always a URL that `isSafeURL` accepts -/
 theorem url_filter_output_is_safe (s : Str) : isSafeURL (urlFilter s) = true := by
   unfold urlFilter
@@ -137,24 +129,41 @@ theorem ctx_safe_jsStr (s : Str) : jsStrSafe (jsStrEscape s) = true := by
   rw [this]
   rfl
 
-/-- **every modelled chain, every string**: the markup-level safety of the place holds (for `urlAttr` without the scheme
-    clause, see above) -/
-def Chain.safeProved : Chain → Str → Bool
-  | .urlAttr => fun s => attrSafe s && noControlOrSpace s
-  | c => c.safe
+/-- **whole URL in `href="{{.URL}}"`** (file, line, repository and branch links; the URL may come from a repository's
+    URL template): the attribute cannot be left, there is no control character or space, and the URL the browser sees
+    after character-reference decoding has no scheme other than http, https or mailto -/
+theorem ctx_safe_urlAttr (s : Str) : urlAttrSafe (urlAttrChain s) = true := by
+  have h := ctx_safe_urlTail (urlFilter s)
+  have hs : schemeOk (unescapeRefs (urlAttrChain s)) = true := by
+    unfold urlAttrChain
+    rw [unescape_htmlEscape_url _ (urlNormalize_bytes _)]
+    exact schemeOk_normalize _ (url_filter_output_is_safe s)
+  unfold urlAttrSafe
+  unfold urlAttrChain at hs ⊢
+  simp [h.1, h.2, hs]
 
-theorem C36_ctx_safe_partial (c : Chain) (s : Str) : c.safeProved (c.apply s) = true := by
+/-- **C36, every modelled chain, every string**: what the chain writes is safe at its place -/
+theorem C36_ctx_safe (c : Chain) (s : Str) : c.safe (c.apply s) = true := by
   cases c
   · exact ctx_safe_html s
   · exact ctx_safe_html s
   · exact ctx_safe_attr s
   · exact ctx_safe_nospace s
-  · have := url_attr_markup_safe_partial s
-    simp [Chain.safeProved, Chain.apply, this.1, this.2]
+  · exact ctx_safe_urlAttr s
   · exact ctx_safe_urlQuery s
   · exact ctx_safe_jsStr s
   · have := ctx_safe_urlTail s
-    simp [Chain.safeProved, Chain.safe, Chain.apply, this.1, this.2]
+    simp [Chain.safe, Chain.apply, this.1, this.2]
+
+/-- as evaluated by the driver -/
+theorem C36_checkP (c : Chain) (s : Str) : checkP c (c.apply s) = true := C36_ctx_safe c s
+
+/-- the model's rune loop is not cut short by its fuel: any larger fuel gives the same result -/
+theorem model_loop_total (repl : Nat → Option Str) (s : Str) (k : Nat) :
+    runeLoop repl (s.length + k) s = runeLoop repl s.length s := by
+  induction k with
+  | zero => rfl
+  | succ j ih => rw [← Nat.add_assoc, runeLoop_fuel repl _ s (by omega), ih]
 
 /-! ### generated-table obligations: the real templates, as escaped by the real html/template -/
 
